@@ -345,10 +345,13 @@ func genPlanOpt(seed uint64, prop string, cold bool) *Plan {
 	nParse := 0
 	hot := prop == "C14" && !cold && r.chance(0.15)
 	sweep := !hot && !cold && r.chance(0.06)
+	repeat := !hot && !sweep && !cold && r.chance(0.05)
 	if hot {
 		nTasks, nParse = genHot(r, p)
 	} else if sweep {
 		nTasks, nParse = genSweep(r, p)
+	} else if repeat {
+		nTasks, nParse = genRepeat(r, p)
 	} else {
 		// cells
 		nShared := r.intn(4)
@@ -651,6 +654,9 @@ func genPlanOpt(seed uint64, prop string, cold bool) *Plan {
 	if sweep {
 		p.Policy = "sweep-" + p.Policy
 	}
+	if repeat {
+		p.Policy = "repeat-" + p.Policy
+	}
 	return p
 }
 
@@ -812,6 +818,66 @@ func genSweep(r *rng, p *Plan) (nTasks, nParse int) {
 			if r.chance(0.08) {
 				ops = append(ops, obs(anchor)) // the recurring value
 			}
+		}
+		p.Tasks = append(p.Tasks, ops)
+	}
+	return nTasks, nParse
+}
+
+// boundary repetition counts: wrap-around counters, chunked allocators and
+// generation schemes misbehave at or next to a power of two
+var repeatCounts = []int{1, 2, 3, 7, 8, 9, 15, 16, 17, 31, 32, 33, 63, 64, 65, 127, 128, 129, 254, 255, 256, 257, 511, 512, 513, 1023, 1024, 1025}
+
+// genRepeat builds "B, A x k, B" histories: one operation repeated a boundary
+// number of times between two occurrences of another one (same object or the
+// same pooled resources), optionally next to other tasks doing the same.
+func genRepeat(r *rng, p *Plan) (nTasks, nParse int) {
+	ver := pickVer(r, 0.3)
+	sp := specs[ver]
+	nTasks = 1 + r.intn(3)
+	v1, v2 := genValid(r, ver), genValid(r, ver)
+	bad := mutate(r, v1, ver)
+	for t := 0; t < nTasks; t++ {
+		p.Cells = append(p.Cells, CellSpec{Ver: ver, Mode: mPriv, Owner: t, Init: v1}, CellSpec{Ver: ver, Mode: mPriv, Owner: t, Init: v2})
+	}
+	mkOp := func(t int) Op {
+		c := 2*t + r.intn(2)
+		switch r.intn(7) {
+		case 0:
+			nParse++
+			return Op{K: kParse, V: ver, C: -1, D: -1, S: v1}
+		case 1:
+			nParse++
+			return Op{K: kParse, V: ver, C: -1, D: -1, S: v2}
+		case 2:
+			nParse++
+			return Op{K: kParse, V: ver, C: -1, D: -1, S: bad}
+		case 3:
+			return Op{K: kVector, C: c, D: -1}
+		case 4:
+			return Op{K: kScore, C: c, D: -1, S: r.pick(apis[ver].ScoreNames())}
+		case 5:
+			m := sp.Metrics[r.intn(len(sp.Metrics))]
+			return Op{K: kSet, C: c, D: -1, S: m.Abv, S2: r.pick(m.Values)}
+		default:
+			nParse++
+			return Op{K: kParse, V: ver, C: -1, D: c, S: r.pick([]string{v1, v2})}
+		}
+	}
+	budget := 1300
+	for t := 0; t < nTasks; t++ {
+		a, b := mkOp(t), mkOp(t)
+		ops := []Op{b}
+		for seg := 1 + r.intn(2); seg > 0; seg-- {
+			k := repeatCounts[r.intn(len(repeatCounts))]
+			if k > budget {
+				k = 1 + r.intn(16)
+			}
+			budget -= k
+			for i := 0; i < k; i++ {
+				ops = append(ops, a)
+			}
+			ops = append(ops, b)
 		}
 		p.Tasks = append(p.Tasks, ops)
 	}
